@@ -23,3 +23,7 @@ def run(tier):
         "trusted: g++, the -fno-access-control probe used for the state key, the independent structure descriptor (cross-checked against the library's registry before exploring)",
     ]
     return chk
+
+
+def replay(path):
+    return en.replay(path)
